@@ -38,6 +38,13 @@ def conds(tier):
         dict(module=M, function='newick_buffer_caterpillar', timeout=170 * f,
              what='same for a 3-leaf caterpillar, times in [-99,99] symbolic, precision 0-2'),
         dict(module=M, function='wrap_text_lines', timeout=120 * f, what='wrap_text: exact width lines, last shorter, 0 = no wrap'),
+        dict(module=M, function='fasta_records_are_named_after_their_nodes', timeout=120 * f,
+             encodes=['tskit.text_formats.write_fasta'],
+             what='write_fasta: whole text = ">n<id>" + wrapped alignment per sample; 3 samples with free ids in [7,11], widths {0,4,6,7}'),
+        dict(module=M, function='fasta_rejects_bad_widths', timeout=60 * f, what='write_fasta: negative widths raise ValueError'),
+        dict(module=M, function='nexus_blocks', timeout=170 * f, encodes=['tskit.text_formats.write_nexus'],
+             what='write_nexus: whole text (TAXA, optional DATA rows n<id> alignment, optional TREES lines) for 3 samples with free ids in [8,11], '
+                  '1-2 trees, include_trees / include_alignments None/True/False, discrete genome on/off'),
     ]
 
 
@@ -45,11 +52,11 @@ BOUNDS = {
     'quick': 'C writer: every one-tree sequence with 4 nodes / 1-3 edges (4 integer time profiles incl. negative times x 3 sample '
              'profiles, plus one profile of fractional dyadic times) and every 3-node 2-edge multi-tree class (first and last tree), every node as root, precision 0-2, both '
              'label styles, buffer size one solver variable in [0,160]; Python: buffer-size estimate on two tree shapes with '
-             'symbolic integer node times; wrap_text for lengths 1-12 and widths 0-6',
+             'symbolic integer node times; wrap_text for lengths 1-12 and widths 0-6; write_fasta / write_nexus record assembly on a fake tree sequence (3 samples with free small ids)',
     'thorough': 'plus 5-node 4-edge one-tree sequences (time-boxed) and 5x CrossHair budgets',
 }
 OUTSIDE = ['digits of branch lengths that are not exactly representable (printf rounding is delegated to the snprintf stub)', 'the general Python path build_newick with custom node_labels',
-           'write_nexus / write_fasta record assembly (numpy alignments)', 'third-party parsers']
+           'the alignments themselves (TreeSequence.alignments, numpy) that write_nexus / write_fasta print', 'third-party parsers']
 ASSUMPTIONS = ['interface contract between the halves: the C writer succeeds iff buffer_size >= len(text)+1 (asserted in the C '
                'harness, assumed by the Python contracts)', 'snprintf stub formats concrete numbers with Python % formatting',
                'math.log10/ceil replaced by an exact integer stand-in in the Python contracts']
@@ -82,7 +89,7 @@ def run(pid, tier, seed, only=None):
     cs = conds(tier)
     if only:
         cs = [c for c in cs if only in c['function']]
-    rc_p = chdriver.run(pid, tier, seed, cs, BOUNDS[tier], OUTSIDE, ASSUMPTIONS, ['mathlite (math.log10/ceil on ints)', 'fake tree + fake _ll_tree.get_newick']) if cs else 0
+    rc_p = chdriver.run(pid, tier, seed, cs, BOUNDS[tier], OUTSIDE, ASSUMPTIONS, ['mathlite (math.log10/ceil on ints)', 'fake tree + fake _ll_tree.get_newick', 'fake tree sequence for write_fasta / write_nexus (samples, alignments, trees)', 'pure-Python print']) if cs else 0
     ev_p = json.load(open(os.path.join(out, 'evidence', pid + '.json')))
     # merge: C-engine evidence is the base, CrossHair results are attached
     ev = ev_c
